@@ -49,6 +49,7 @@ def run(ctx):
         import docwalk
         ctx.guard(docwalk.cursor_advance, ctx, cfg, fs, 'K.cursor', r'render_html$|render_markdown$|render_roff$')
         ctx.guard(docwalk.payload_writers, ctx, cfg, fs, 'K.cursor')
+        ctx.guard(docwalk.style_reset_first, ctx, cfg, fs, 'H.html-tags', r'render_html$|render_markdown$', r'buffer::html::change_(to_markdown_)?style$')
         ctx.guard(docwalk.block_pairing, ctx, cfg, fs, 'K.skip-pairing', r'impl buffer::Doc>::render_html$', [('skip', r'buffer::Skip::push$', r'buffer::Skip::pop$')])
 
 def out_string(b):
